@@ -6,10 +6,16 @@ goroutines, receive-channel capacity, blocked readers or wait groups.  It follow
 `tcpmux` line protocol (operation + the OBSERVED output line) and keeps only what the text talks about:
 
 * per client: peer address, local IP, when it was accepted, the first complete frame, the complete
-  frames it sent, how many of them have been read, which packet connection it was routed to;
+  frames it sent, how many of them have been read, which packet connection it was routed to (and the
+  order in which connections were routed);
 * per packet connection (one record per incarnation): key (ufrag, family, local IP), provisional or
   not, alive deadline while unclaimed, number of open handles, open or not;
 * per handle: its packet connection, closed or not.
+
+The monitor proper is the typed function `observeT` (operation `MOp`, observed line `Line`); `observe`
+is `observeT` after parsing the tokens and the output line.  `IceProps/C15.lean` proves that EVERY run
+of the model is accepted by `observeT` (`C15_model_passes_monitor`); the driver runs `observe` on the
+outputs of the implementation.
 
 Clauses (returned text = first violated clause):
 * **first frame**: a client's first complete frame attaches it iff it arrives before the first-bind
@@ -54,6 +60,8 @@ structure MClient where
   hasFirst : Bool := false
   /-- packet-connection record it was routed to -/
   target : Option Nat := none
+  /-- position in the order in which connections were routed (stamp taken when it was routed) -/
+  seq : Nat := 0
   /-- complete frames sent since (and including) the first -/
   sent : List MFrame := []
   nread : Nat := 0
@@ -64,7 +72,7 @@ structure MClient where
   gone : Bool := false
   /-- observed closed by the mux -/
   closed : Bool := false
-  deriving Repr
+  deriving Repr, DecidableEq
 
 structure MPc where
   ufrag : String
@@ -75,12 +83,12 @@ structure MPc where
   expires : Option Nat
   refs : Nat
   isOpen : Bool := true
-  deriving Repr
+  deriving Repr, DecidableEq
 
 structure MHandle where
   pc : Nat
   closed : Bool := false
-  deriving Repr
+  deriving Repr, DecidableEq
 
 structure Mon where
   active : Bool := false
@@ -90,20 +98,420 @@ structure Mon where
   clients : List MClient := []
   pcs : List MPc := []
   handles : List MHandle := []
+  /-- number of connections routed so far (next `MClient.seq`) -/
+  stamp : Nat := 0
   closeCalled : Bool := false
   closeTime : Nat := 0
   returned : Bool := false
-  deriving Repr
+  deriving Repr, DecidableEq
+
+/-! ## typed operations and observations -/
+
+/-- the result part of an output line, as far as the clauses look at it -/
+inductive ORes where
+  | ok
+  | noop
+  /-- `h<n>`: a handle -/
+  | handle (h : Nat)
+  /-- `n=<bytes>` (`none`: the count is not a canonical number) -/
+  | wrote (n : Option Nat)
+  /-- `pkt <ip>:<port> <id> <len>`; `id` is the payload id as printed (`-` when the payload is too short to carry one) -/
+  | pkt (ip port : Nat) (id : String) (len : Nat)
+  /-- `pkt …` whose address or length cannot be read -/
+  | pktBad
+  | empty
+  /-- `end ok…` -/
+  | endOk
+  | other
+  deriving Repr, DecidableEq
 
 /-- the observation part of an output line -/
 structure Obs where
-  res : String
+  res : ORes
+  /-- TCP connections that are closed (mux side) -/
   closed : List Nat
+  /-- replies that arrived at clients during this operation: (client, payload id as printed) -/
   outs : List (Nat × String)
+  /-- goroutine census -/
   g : List Nat
   listenerClosed : Bool
+  /-- `Close` has returned -/
   ret : Bool
-  deriving Repr
+  deriving Repr, DecidableEq
+
+inductive Line where
+  /-- `bad-op` / `no-session`: the operation was not performed -/
+  | skip
+  | garbled
+  | obs (o : Obs)
+  deriving Repr, DecidableEq
+
+inductive MOp where
+  /-- `new cap wbuf t1 t2` (timeouts as configured: 0 = default) -/
+  | start (t1 t2 : Nat)
+  /-- `multi …`, or a `new` that cannot be read: no session -/
+  | reset
+  | accept (ip port lip : Nat)
+  /-- a complete frame; `user` = the text before the first `:` of the USERNAME if the frame is a STUN
+  Binding message with USERNAME -/
+  | frame (k fid : Nat) (user : Option String) (len : Nat)
+  /-- the client stops in the middle of a frame -/
+  | partialFrame (k : Nat)
+  /-- the client closes or resets -/
+  | cclose (k : Nat)
+  | advance (dt : Nat)
+  | getconn (ufrag : String) (v6 : Bool) (lip : Nat)
+  | remove (ufrag : String)
+  | closeh (h : Nat)
+  | closepc (h : Nat)
+  /-- `pid` = payload id as printed in the operation -/
+  | write (h ip port : Nat) (pid : String) (len : Nat)
+  | read (h : Nat)
+  | closemux
+  /-- `end`: teardown performed by the harness -/
+  | finish
+  | other
+  deriving Repr, DecidableEq
+
+/-! ## helpers -/
+
+def timeoutOf (t : Nat) : Nat := if t = 0 then 30000 else t
+
+def setAt {α : Type} (l : List α) (i : Nat) (f : α → α) : List α := l.modify i f
+
+def closeOne (q : MPc) : MPc := if q.isOpen then { q with isOpen := false, expires := none } else q
+
+/-- close record `p` (and nothing else: a packet connection is closed only for its own reasons) -/
+def closeRec (pcs : List MPc) (p : Nat) : List MPc := pcs.modify p closeOne
+
+def closeWhere (pcs : List MPc) (sel : MPc → Bool) : List MPc :=
+  pcs.map (fun q => if sel q then closeOne q else q)
+
+def findOpen (pcs : List MPc) (ufrag : String) (v6 : Bool) (lip : Nat) : Option Nat :=
+  pcs.findIdx? (fun pc => pc.isOpen && pc.ufrag == ufrag && pc.v6 == v6 && pc.lip == lip)
+
+/-- the ufrag a first frame routes by, as the property describes it -/
+def routeUfrag (user : Option String) (len : Nat) : Option String :=
+  if len > 512 then none else user
+
+def isOpenPc (m : Mon) (p : Nat) : Bool := match m.pcs[p]? with | some pc => pc.isOpen | none => false
+
+/-- the list with its indices -/
+def indexed {α : Type} (l : List α) : List (Nat × α) :=
+  (List.range l.length).filterMap (fun k => (l[k]?).map (k, ·))
+
+/-- clients routed to record `p` whose TCP connection is not closed -/
+def liveOn (m : Mon) (p : Nat) : List (Nat × MClient) :=
+  (indexed m.clients).filter (fun x => x.2.target == some p && !x.2.closed)
+
+/-- the next unread frame of `c` is the packet `(id, len)` -/
+def isNext (c : MClient) (id : String) (len : Nat) : Bool :=
+  match c.sent[c.nread]? with
+  | some f => f.len == len && (decide (len < 4) || toString f.fid == id)
+  | none => false
+
+/-- take over the observed facts: which clients are closed -/
+def absorb (m : Mon) (o : Obs) : Mon :=
+  { m with clients := m.clients.mapIdx (fun k c => if o.closed.contains k then { c with closed := true } else c),
+           returned := o.ret }
+
+/-! the per-client conditions of the clauses that are checked after every operation (`closed` = the
+observed set of closed TCP connections) -/
+
+/-- client `k` was closed and is not closed any more -/
+def clReopened (m : Mon) (closed : List Nat) (k : Nat) : Bool :=
+  match m.clients[k]? with
+  | some c => c.closed && !closed.contains k
+  | none => false
+
+/-- no complete first frame by the first-bind deadline, and still open -/
+def clLate (m : Mon) (closed : List Nat) (k : Nat) : Bool :=
+  match m.clients[k]? with
+  | some c => c.accepted && !c.hasFirst && decide (c.deadline ≤ m.now) && !closed.contains k
+  | none => false
+
+/-- routed to a record whose alive deadline has passed, and still open -/
+def clProvisional (m : Mon) (closed : List Nat) (k : Nat) : Bool :=
+  match m.clients[k]? with
+  | some c => (match c.target with
+    | some p => (match m.pcs[p]? with
+      | some pc => (match pc.expires with
+        | some d => decide (d ≤ m.now) && !closed.contains k
+        | none => false)
+      | none => false)
+    | none => false)
+  | none => false
+
+/-- closed by this operation although its client behaves and its record (in `me`) stays open -/
+def clDelivery (m me : Mon) (closed : List Nat) (k : Nat) : Bool :=
+  match m.clients[k]? with
+  | some c => !c.closed && !c.gone && closed.contains k && (match c.target with
+    | some p => (match me.pcs[p]? with | some pc => pc.isOpen | none => false)
+    | none => false)
+  | none => false
+
+/-- accepted and still open -/
+def clStillOpen (m : Mon) (closed : List Nat) (k : Nat) : Bool :=
+  match m.clients[k]? with
+  | some c => c.accepted && !closed.contains k
+  | none => false
+
+/-- clauses that are checked after every operation (`me` = `m` after the records whose alive deadline
+has passed were closed) -/
+def always (m me : Mon) (o : Obs) (allowOut : Bool) : Option String :=
+  let n := m.clients.length
+  -- a closed connection never reopens; ids are those of accepted clients
+  if o.closed.any (fun k => k ≥ n) then some "closed set names an unknown client" else
+  if (List.range n).any (clReopened m o.closed) then some "a closed TCP connection reopened" else
+  -- late: no complete first frame by the first-bind deadline
+  if (List.range n).any (clLate m o.closed) then
+    some "late: no first frame within the first-bind timeout but the TCP connection is still open" else
+  -- provisional expires
+  if (List.range n).any (clProvisional m o.closed) then
+    some "provisional: alive duration elapsed without GetConnByUfrag but a TCP connection routed there is still open" else
+  -- delivery: a routed connection stays usable while its packet connection is open and its client behaves
+  if (List.range n).any (clDelivery m me o.closed) then
+    some "delivery: a TCP connection routed to an open packet connection was closed by the mux" else
+  if !allowOut && !o.outs.isEmpty then some "reply path: data written to a client by an operation that is not a write" else
+  -- close
+  if m.closeCalled && !o.listenerClosed then some "close: Close was called but the listener is open" else
+  if o.ret && !m.closeCalled then some "close: returned before it was called" else
+  if m.returned && !o.ret then some "close: returned flag went back" else
+  if o.ret && (List.range n).any (clStillOpen m o.closed) then
+    some "close: Close returned but a TCP connection is still open" else
+  if o.ret && o.g.any (· ≠ 0) then some "close: Close returned but goroutines of the mux are alive" else
+  if m.closeCalled && !o.ret && decide (m.closeTime + m.t1 + m.t2 ≤ m.now) then
+    some "close: Close has not returned although first-bind timeout + alive duration have elapsed since the call" else
+  none
+
+/-- the alive deadline of the record has passed -/
+def expired (now : Nat) (pc : MPc) : Bool :=
+  match pc.expires with
+  | some d => decide (d ≤ now)
+  | none => false
+
+/-- records whose alive deadline has passed are closed (bookkeeping; the check is in `always`) -/
+def expire (m : Mon) : Mon := { m with pcs := closeWhere m.pcs (expired m.now) }
+
+/-- end of every observed operation: the clauses checked always, then the observed closures are taken over -/
+def fin (o : Obs) (m : Mon) (v : Option String) (allowOut : Bool) : Mon × Option String :=
+  let me := expire m
+  let v := match v with | some x => some x | none => always m me o allowOut
+  (absorb me o, v)
+
+/-! ## the clauses of the single operations
+
+`book` returns the monitor state after the bookkeeping for the operation, the violated clause of the
+operation itself (if any), and whether the operation may write to clients. -/
+
+def bookAccept (m : Mon) (o : Obs) (ip port lip : Nat) : Mon × Option String × Bool :=
+  let acc := o.res == .ok
+  let m := { m with clients := m.clients ++ [{ ip := ip, port := port, lip := lip, accepted := acc,
+                                               deadline := m.now + m.t1, closed := !acc }] }
+  (m, if m.closeCalled && acc then some "close: a connection was accepted after Close" else none, false)
+
+/-- client `j` was not closed before this operation -/
+def clOpenBefore (m : Mon) (j : Nat) : Bool :=
+  match m.clients[j]? with
+  | some d => !d.closed
+  | none => true
+
+/-- the connections other than `k` that this operation closed -/
+def othersClosed (m : Mon) (o : Obs) (k : Nat) : List Nat :=
+  o.closed.filter (fun j => j ≠ k && clOpenBefore m j)
+
+/-- the open record for (ufrag, family, local IP), or a new provisional one -/
+def ensureRec (m : Mon) (u : String) (v6 : Bool) (lip : Nat) : List MPc × Nat :=
+  match findOpen m.pcs u v6 lip with
+  | some p => (m.pcs, p)
+  | none => (m.pcs ++ [{ ufrag := u, v6 := v6, lip := lip, provisional := true,
+                         expires := some (m.now + m.t2), refs := 0 }], m.pcs.length)
+
+/-- first complete frame that must be refused: late, oversized, not a STUN Binding, or without USERNAME -/
+def bookReject (m : Mon) (o : Obs) (k : Nat) : Mon × Option String × Bool :=
+  let m' := { m with clients := setAt m.clients k (fun c => { c with hasFirst := true }) }
+  if !o.closed.contains k then (m', some "first frame: late, oversized, not a STUN Binding or without USERNAME, but the TCP connection stays open", false)
+  else if !(othersClosed m o k).isEmpty then (m', some "first frame: rejecting one connection closed another", false)
+  else (m', none, false)
+
+/-- first complete frame, in time, of a STUN Binding with USERNAME `u:…` from client `k` (record `c`) -/
+def bookRoute (m : Mon) (o : Obs) (k fid len : Nat) (c : MClient) (u : String) : Mon × Option String × Bool :=
+  let pp := ensureRec m u (decide (2 ≤ c.ip)) c.lip
+  let m1 := { m with pcs := pp.1 }
+  let dup := (liveOn m1 pp.2).any (fun x => x.2.ip == c.ip && x.2.port == c.port)
+  if dup then
+    -- the packet connection already has a TCP connection from this remote address
+    let m' := { m1 with clients := setAt m1.clients k (fun c => { c with hasFirst := true }) }
+    if !o.closed.contains k then (m', some "first frame: second connection from the same remote address was kept", false) else (m', none, false)
+  else
+    let m' := { m1 with stamp := m1.stamp + 1, clients := setAt m1.clients k (fun c =>
+      { c with hasFirst := true, target := some pp.2, seq := m1.stamp, sent := [⟨fid, len⟩] }) }
+    if o.closed.contains k then (m', some "first frame: valid STUN Binding with USERNAME in time, but the TCP connection was closed", false)
+    else if !(othersClosed m o k).isEmpty then (m', some "first frame: attaching one connection closed another", false)
+    else (m', none, false)
+
+/-- the first complete frame of an open, accepted connection -/
+def bookFirst (m : Mon) (o : Obs) (k fid len : Nat) (c : MClient) (route : Option String) : Mon × Option String × Bool :=
+  match route with
+  | none => bookReject m o k
+  | some u => bookRoute m o k fid len c u
+
+def bookFrame (m : Mon) (o : Obs) (k fid : Nat) (user : Option String) (len : Nat) : Mon × Option String × Bool :=
+  match m.clients[k]? with
+  | none => (m, none, false)
+  | some c =>
+    if c.done || !c.accepted || o.res == .noop then (m, none, false) else
+    if c.hasFirst then
+      -- a later frame: remember it if the connection can still carry it
+      if c.closed then (m, none, false) else
+      ({ m with clients := setAt m.clients k (fun c =>
+        { c with sent := c.sent ++ [⟨fid, len⟩], gone := c.gone || decide (8192 < len) }) }, none, false)
+    else if c.closed then ({ m with clients := setAt m.clients k (fun c => { c with hasFirst := true }) }, none, false)
+    else bookFirst m o k fid len c (if m.now < c.deadline then routeUfrag user len else none)
+
+def bookGetconn (m : Mon) (o : Obs) (u : String) (v6 : Bool) (lip : Nat) : Mon × Option String × Bool :=
+  match o.res with
+  | .handle h =>
+    if h ≠ m.handles.length then (m, some "getconn: unexpected handle number", false) else
+    if m.closeCalled then (m, some "close: GetConnByUfrag succeeded after Close", false) else
+    match findOpen m.pcs u v6 lip with
+    | some p =>
+      ({ m with pcs := setAt m.pcs p (fun pc => { pc with expires := none, refs := pc.refs + 1 }),
+                handles := m.handles ++ [{ pc := p }] }, none, false)
+    | none =>
+      ({ m with pcs := m.pcs ++ [{ ufrag := u, v6 := v6, lip := lip, provisional := false, expires := none, refs := 1 }],
+                handles := m.handles ++ [{ pc := m.pcs.length }] }, none, false)
+  | _ => (m, none, false)
+
+def bookCloseh (m : Mon) (h : Nat) : Mon × Option String × Bool :=
+  match m.handles[h]? with
+  | some hd =>
+    if hd.closed then (m, none, false) else
+    let m1 := { m with handles := setAt m.handles h (fun hd => { hd with closed := true }) }
+    match m1.pcs[hd.pc]? with
+    | some pc =>
+      let m2 := { m1 with pcs := setAt m1.pcs hd.pc (fun pc => { pc with refs := pc.refs - 1 }) }
+      if pc.refs ≤ 1 then ({ m2 with pcs := closeRec m2.pcs hd.pc }, none, false) else (m2, none, false)
+    | none => (m1, none, false)
+  | none => (m, none, false)
+
+def bookWrite (m : Mon) (o : Obs) (h ip port : Nat) (pid : String) (len : Nat) : Mon × Option String × Bool :=
+  match m.handles[h]? with
+  | none => (m, none, false)
+  | some hd =>
+    let want := if len < 4 then "-" else pid
+    let tgt := if hd.closed then [] else (liveOn m hd.pc).filter (fun x => x.2.ip == ip && x.2.port == port)
+    match o.res with
+    | .wrote n =>
+      match tgt, o.outs with
+      | [(k, _)], [(k', id)] =>
+        if k ≠ k' then (m, some "reply path: the reply went out on another TCP connection", true)
+        else if id ≠ want then (m, some "reply path: the reply's payload is not what was written", true)
+        else if n ≠ some len then (m, some "reply path: wrong byte count", true)
+        else (m, none, true)
+      | [], _ => (m, some "reply path: write succeeded although no open TCP connection with that address is routed to this packet connection", true)
+      | _, _ => (m, some "reply path: a successful write must appear on exactly one TCP connection", true)
+    | _ =>
+      if !o.outs.isEmpty then (m, some "reply path: a failed write reached a client", true)
+      else if !tgt.isEmpty then (m, some "reply path: write failed although the TCP connection with that address is open and routed to this packet connection", true)
+      else (m, none, true)
+
+def bookRead (m : Mon) (o : Obs) (h : Nat) : Mon × Option String × Bool :=
+  match m.handles[h]? with
+  | none => (m, none, false)
+  | some hd =>
+    match o.res with
+    | .pkt ip port id len =>
+      if hd.closed then (m, some "order and source: a closed handle returned a packet", false) else
+      -- the connections routed to this packet connection with that address, and among them those whose
+      -- NEXT unread frame is this one. Connections from one address are routed to a packet connection one
+      -- after the other (a second one is refused while the first is open), so their frames arrive in the
+      -- order in which they were routed: the packet belongs to the EARLIEST routed candidate.
+      let all := (indexed m.clients).filter (fun x => x.2.target == some hd.pc && x.2.ip == ip && x.2.port == port)
+      let cands := all.filter (fun x => isNext x.2 id len)
+      match cands.find? (fun x => cands.all (fun y => decide (x.2.seq ≤ y.2.seq))) with
+      | some (k, _) => ({ m with clients := setAt m.clients k (fun c => { c with nread := c.nread + 1 }) }, none, false)
+      | none =>
+        if all.isEmpty then (m, some "order and source: packet from an address that no TCP connection routed to this packet connection has", false)
+        else (m, some "order and source: not the next frame of a connection routed here from that address (out of order, duplicated, altered or lost)", false)
+    | .pktBad => (m, some "order and source: unparsable source address", false)
+    | .empty =>
+      if hd.closed then (m, none, false) else
+      -- nothing to read: every frame of every open connection routed here has been delivered
+      if (liveOn m hd.pc).any (fun x => decide (x.2.nread < x.2.sent.length)) && isOpenPc m hd.pc then
+        (m, some "order and source: nothing to read although an open TCP connection routed here has undelivered frames", false)
+      else (m, none, false)
+    | _ => (m, none, false)
+
+/-- routed and still open -/
+def clRoutedOpen (m : Mon) (closed : List Nat) (k : Nat) : Bool :=
+  match m.clients[k]? with
+  | some c => c.target.isSome && !closed.contains k
+  | none => false
+
+def bookClosemux (m : Mon) (o : Obs) : Mon × Option String × Bool :=
+  if m.closeCalled then (m, none, false) else
+  let m := { m with closeCalled := true, closeTime := m.now, pcs := closeWhere m.pcs (fun _ => true) }
+  -- Close closes every packet connection, hence every routed TCP connection, before it waits
+  if (List.range m.clients.length).any (clRoutedOpen m o.closed) then
+    (m, some "close: Close was called but a routed TCP connection is still open", false)
+  else (m, none, false)
+
+def book (m : Mon) (op : MOp) (o : Obs) : Mon × Option String × Bool :=
+  match op with
+  | .accept ip port lip => bookAccept m o ip port lip
+  | .frame k fid user len => bookFrame m o k fid user len
+  | .partialFrame k => ({ m with clients := setAt m.clients k (fun c => { c with done := true }) }, none, false)
+  | .cclose k => ({ m with clients := setAt m.clients k (fun c => { c with done := true, gone := true }) }, none, false)
+  | .advance dt => ({ m with now := m.now + dt }, none, false)
+  | .getconn u v6 lip => bookGetconn m o u v6 lip
+  | .remove u => ({ m with pcs := closeWhere m.pcs (fun pc => pc.ufrag == u) }, none, false)
+  | .closeh h => bookCloseh m h
+  | .closepc h =>
+    match m.handles[h]? with
+    | some hd => ({ m with pcs := closeRec m.pcs hd.pc }, none, false)
+    | none => (m, none, false)
+  | .write h ip port pid len => bookWrite m o h ip port pid len
+  | .read h => bookRead m o h
+  | .closemux => bookClosemux m o
+  | _ => (m, none, false)
+
+/-- the `end` line: teardown performed by the harness (all handles closed, Close called, time advanced
+past both timeouts) -/
+def finish (m : Mon) (o : Obs) : Mon × Option String :=
+  let m := { m with closeTime := if m.closeCalled then m.closeTime else m.now, closeCalled := true,
+                    now := m.now + m.t1 + m.t2 + 1, pcs := closeWhere m.pcs (fun _ => true) }
+  let v := if o.res ≠ .endOk then some "close: after Close and both timeouts something is still alive" else always m (expire m) o false
+  ({ m with active := false }, v)
+
+/-- One step of the monitor: the operation and the implementation's output line.  Returns the new
+monitor state and the first violated clause, if any. -/
+def observeT (m : Mon) (op : MOp) (l : Line) : Mon × Option String :=
+  match op with
+  | .start t1 t2 =>
+    match l with
+    | .obs o =>
+      let m : Mon := { active := true, t1 := timeoutOf t1, t2 := timeoutOf t2 }
+      (m, always m m o false)
+    | _ => ({}, none)
+  | .reset => ({}, none)
+  | op =>
+    if !m.active then (m, none) else
+    match l with
+    | .skip => (m, none)
+    | .garbled => ({ m with active := false }, some "unparsable implementation output")
+    | .obs o =>
+      match op with
+      | .finish => finish m o
+      | op => let b := book m op o; fin o b.1 b.2.1 b.2.2
+
+/-! ## reading the line protocol -/
+
+/-- a number in its canonical decimal form -/
+def canonNat (s : String) : Option Nat :=
+  match s.toNat? with
+  | some n => if toString n == s then some n else none
+  | none => none
 
 def parseNatList (s : String) : Option (List Nat) :=
   if s = "" then some [] else (s.splitOn ",").mapM String.toNat?
@@ -117,103 +525,6 @@ def parseOuts (s : String) : Option (List (Nat × String)) :=
 def field (pre : String) (s : String) : Option String :=
   if s.startsWith pre then some ((s.drop pre.length).toString) else none
 
-def parseObs (line : String) : Option Obs :=
-  match line.splitOn " ; " with
-  | [res, c, o, g, l, r] =>
-    match (field "c=" c).bind parseNatList, (field "o=" o).bind parseOuts,
-          (field "g=" g).bind (fun x => (x.splitOn "/").mapM String.toNat?), field "L=" l, field "ret=" r with
-    | some c, some o, some g, some l, some r =>
-      some { res := res, closed := c, outs := o, g := g, listenerClosed := l == "1", ret := r == "1" }
-    | _, _, _, _, _ => none
-  | _ => none
-
-def timeoutOf (t : Nat) : Nat := if t = 0 then 30000 else t
-
-def setAt {α : Type} (l : List α) (i : Nat) (f : α → α) : List α := l.modify i f
-
-/-- close record `p` (and nothing else: a packet connection is closed only for its own reasons) -/
-def closeRec (pcs : List MPc) (p : Nat) : List MPc :=
-  match pcs[p]? with
-  | none => pcs
-  | some pc =>
-    if !pc.isOpen then pcs else
-    pcs.mapIdx (fun i q => if i = p then { q with isOpen := false, expires := none } else q)
-
-def closeWhere (pcs : List MPc) (sel : MPc → Bool) : List MPc :=
-  (List.range pcs.length).foldl (fun acc i => match acc[i]? with
-    | some pc => if pc.isOpen && sel pc then closeRec acc i else acc
-    | none => acc) pcs
-
-def findOpen (pcs : List MPc) (ufrag : String) (v6 : Bool) (lip : Nat) : Option Nat :=
-  pcs.findIdx? (fun pc => pc.isOpen && pc.ufrag == ufrag && pc.v6 == v6 && pc.lip == lip)
-
-/-- the ufrag a first frame routes by, as the property describes it -/
-def routeUfrag (kind : String) (len : Nat) : Option String :=
-  if len > 512 then none else
-  match kind.toList with
-  | 'u' :: r => some (String.ofList r)
-  | 'w' :: r => some (String.ofList r)
-  | _ => none
-
-def isOpenPc (m : Mon) (p : Nat) : Bool := match m.pcs[p]? with | some pc => pc.isOpen | none => false
-
-/-- clients routed to record `p` whose TCP connection is not closed -/
-def liveOn (m : Mon) (p : Nat) : List (Nat × MClient) :=
-  ((List.range m.clients.length).filterMap (fun k => (m.clients[k]?).map (k, ·))).filter
-    (fun (_, c) => c.target == some p && !c.closed)
-
-/-- take over the observed facts: which clients are closed -/
-def absorb (m : Mon) (o : Obs) : Mon :=
-  { m with clients := m.clients.mapIdx (fun k c => if o.closed.contains k then { c with closed := true } else c),
-           returned := o.ret }
-
-/-- clauses that are checked after every operation (`me` = `m` after the records whose alive deadline
-has passed were closed) -/
-def always (m me : Mon) (o : Obs) (allowOut : Bool) : Option String :=
-  let n := m.clients.length
-  -- a closed connection never reopens; ids are those of accepted clients
-  if o.closed.any (fun k => k ≥ n) then some "closed set names an unknown client" else
-  if (List.range n).any (fun k => match m.clients[k]? with
-      | some c => c.closed && !o.closed.contains k | none => false) then some "a closed TCP connection reopened" else
-  -- late: no complete first frame by the first-bind deadline
-  if (List.range n).any (fun k => match m.clients[k]? with
-      | some c => c.accepted && !c.hasFirst && decide (c.deadline ≤ m.now) && !o.closed.contains k | none => false) then
-    some "late: no first frame within the first-bind timeout but the TCP connection is still open" else
-  -- provisional expires
-  if (List.range n).any (fun k => match m.clients[k]? with
-      | some c => (match c.target with
-        | some p => (match m.pcs[p]? with
-          | some pc => (match pc.expires with
-            | some d => decide (d ≤ m.now) && !o.closed.contains k
-            | none => false)
-          | none => false)
-        | none => false)
-      | none => false) then
-    some "provisional: alive duration elapsed without GetConnByUfrag but a TCP connection routed there is still open" else
-  -- delivery: a routed connection stays usable while its packet connection is open and its client behaves
-  if (List.range n).any (fun k => match m.clients[k]? with
-      | some c => !c.closed && !c.gone && o.closed.contains k && (match c.target with
-        | some p => (match me.pcs[p]? with | some pc => pc.isOpen | none => false)
-        | none => false)
-      | none => false) then
-    some "delivery: a TCP connection routed to an open packet connection was closed by the mux" else
-  if !allowOut && !o.outs.isEmpty then some "reply path: data written to a client by an operation that is not a write" else
-  -- close
-  if m.closeCalled && !o.listenerClosed then some "close: Close was called but the listener is open" else
-  if o.ret && !m.closeCalled then some "close: returned before it was called" else
-  if m.returned && !o.ret then some "close: returned flag went back" else
-  if o.ret && (List.range n).any (fun k => match m.clients[k]? with
-      | some c => c.accepted && !o.closed.contains k | none => false) then
-    some "close: Close returned but a TCP connection is still open" else
-  if o.ret && o.g.any (· ≠ 0) then some "close: Close returned but goroutines of the mux are alive" else
-  if m.closeCalled && !o.ret && decide (m.closeTime + m.t1 + m.t2 ≤ m.now) then
-    some "close: Close has not returned although first-bind timeout + alive duration have elapsed since the call" else
-  none
-
-/-- records whose alive deadline has passed are closed (bookkeeping; the check is in `always`) -/
-def expire (m : Mon) : Mon :=
-  { m with pcs := closeWhere m.pcs (fun pc => match pc.expires with | some d => decide (d ≤ m.now) | none => false) }
-
 def parseH (s : String) : Option Nat :=
   match s.toList with
   | 'h' :: r => (String.ofList r).toNat?
@@ -224,186 +535,107 @@ def parseU (s : String) : Option String :=
   | 'U' :: r => some (String.ofList r)
   | _ => none
 
-/-- One step of the monitor: operation tokens (without the component name) and the implementation's
-output line.  Returns the new monitor state and the first violated clause, if any. -/
-def observe (m : Mon) (toks : List String) (impl : String) : Mon × Option String :=
+/-- the ufrag (USERNAME before the first `:`) of a frame built as a STUN Binding with USERNAME -/
+def kindUser (kind : String) : Option String :=
+  match kind.toList with
+  | 'u' :: r => some (String.ofList r)
+  | 'w' :: r => some (String.ofList r)
+  | _ => none
+
+def parseRes (s : String) : ORes :=
+  if s = "ok" then .ok else
+  if s = "noop" then .noop else
+  if s = "empty" then .empty else
+  if s.startsWith "end ok" then .endOk else
+  if s.startsWith "n=" then .wrote (canonNat ((s.drop 2).toString)) else
+  match parseH s with
+  | some h => .handle h
+  | none =>
+    match s.splitOn " " with
+    | ["pkt", addr, id, len] =>
+      match addr.splitOn ":", len.toNat? with
+      | [ip, port], some len =>
+        match canonNat ip, canonNat port with
+        | some ip, some port => .pkt ip port id len
+        | _, _ => .pktBad
+      | _, _ => .pktBad
+    | _ => .other
+
+def parseObs (line : String) : Option Obs :=
+  match line.splitOn " ; " with
+  | [res, c, o, g, l, r] =>
+    match (field "c=" c).bind parseNatList, (field "o=" o).bind parseOuts,
+          (field "g=" g).bind (fun x => (x.splitOn "/").mapM String.toNat?), field "L=" l, field "ret=" r with
+    | some c, some o, some g, some l, some r =>
+      some { res := parseRes res, closed := c, outs := o, g := g, listenerClosed := l == "1", ret := r == "1" }
+    | _, _, _, _, _ => none
+  | _ => none
+
+def parseLine (impl : String) : Line :=
+  if impl = "bad-op" ∨ impl = "no-session" then .skip else
+  match parseObs impl with
+  | some o => .obs o
+  | none => .garbled
+
+/-- operation tokens (without the component name) -/
+def parseToks (toks : List String) : MOp :=
   match toks with
   | ["new", _cap, _wbuf, t1, t2] =>
-    match t1.toNat?, t2.toNat?, parseObs impl with
-    | some t1, some t2, some o =>
-      let m : Mon := { active := true, t1 := timeoutOf t1, t2 := timeoutOf t2 }
-      (m, always m m o false)
-    | _, _, _ => ({}, none)
-  | ["multi", _, _] => ({}, none)
-  | _ =>
-  if !m.active then (m, none) else
-  if impl = "bad-op" ∨ impl = "no-session" then (m, none) else
-  match parseObs impl with
-  | none => ({ m with active := false }, some "unparsable implementation output")
-  | some o =>
-    let fin (m : Mon) (v : Option String) (allowOut : Bool := false) : Mon × Option String :=
-      let me := expire m
-      let v := match v with | some x => some x | none => always m me o allowOut
-      (absorb me o, v)
-    match toks with
-    | ["accept", _k, ip, port, lip] =>
-      match ip.toNat?, port.toNat?, lip.toNat? with
-      | some ip, some port, some lip =>
-        let acc := o.res == "ok"
-        let m := { m with clients := m.clients ++ [{ ip := ip, port := port, lip := lip, accepted := acc,
-                                                     deadline := m.now + m.t1, closed := !acc }] }
-        fin m (if m.closeCalled && acc then some "close: a connection was accepted after Close" else none)
-      | _, _, _ => fin m none
-    | ["frame", k, fid, kind, len] =>
-      match k.toNat?, fid.toNat?, len.toNat? with
-      | some k, some fid, some len =>
-        match m.clients[k]? with
-        | none => fin m none
-        | some c =>
-          if c.done || !c.accepted || o.res == "noop" then fin m none else
-          if c.hasFirst then
-            -- a later frame: remember it if the connection can still carry it
-            if c.closed then fin m none else
-            fin { m with clients := setAt m.clients k (fun c =>
-              { c with sent := c.sent ++ [⟨fid, len⟩], gone := c.gone || decide (8192 < len) }) } none
-          else if c.closed then fin { m with clients := setAt m.clients k (fun c => { c with hasFirst := true }) } none
-          else
-            -- the first complete frame of an open, accepted connection
-            let closedNow := o.closed.contains k
-            let others := o.closed.filter (fun j => j ≠ k && match m.clients[j]? with | some d => !d.closed | none => true)
-            match (if m.now < c.deadline then routeUfrag kind len else none) with
-            | none =>
-              let m' := { m with clients := setAt m.clients k (fun c => { c with hasFirst := true }) }
-              if !closedNow then fin m' (some "first frame: late, oversized, not a STUN Binding or without USERNAME, but the TCP connection stays open")
-              else if !others.isEmpty then fin m' (some "first frame: rejecting one connection closed another")
-              else fin m' none
-            | some u =>
-              let v6 := decide (2 ≤ c.ip)
-              let (pcs, p) := match findOpen m.pcs u v6 c.lip with
-                | some p => (m.pcs, p)
-                | none => (m.pcs ++ [{ ufrag := u, v6 := v6, lip := c.lip, provisional := true,
-                                        expires := some (m.now + m.t2), refs := 0 }], m.pcs.length)
-              let m1 := { m with pcs := pcs }
-              let dup := (liveOn m1 p).any (fun (_, d) => d.ip == c.ip && d.port == c.port)
-              if dup then
-                -- the packet connection already has a TCP connection from this remote address
-                let m' := { m1 with clients := setAt m1.clients k (fun c => { c with hasFirst := true }) }
-                if !closedNow then fin m' (some "first frame: second connection from the same remote address was kept") else fin m' none
-              else
-                let m' := { m1 with clients := setAt m1.clients k (fun c =>
-                  { c with hasFirst := true, target := some p, sent := [⟨fid, len⟩] }) }
-                if closedNow then fin m' (some "first frame: valid STUN Binding with USERNAME in time, but the TCP connection was closed")
-                else if !others.isEmpty then fin m' (some "first frame: attaching one connection closed another")
-                else fin m' none
-      | _, _, _ => fin m none
-    | ["partial", k, _, _, _, _] =>
-      match k.toNat? with
-      | some k => fin { m with clients := setAt m.clients k (fun c => { c with done := true }) } none
-      | none => fin m none
-    | ["cclose", k] | ["creset", k] =>
-      match k.toNat? with
-      | some k => fin { m with clients := setAt m.clients k (fun c => { c with done := true, gone := true }) } none
-      | none => fin m none
-    | ["advance", dt] =>
-      match dt.toNat? with
-      | some dt => fin { m with now := m.now + dt } none
-      | none => fin m none
-    | ["getconn", u, v6, lip] =>
-      match parseU u, lip.toNat?, parseH o.res with
-      | some u, some lip, some h =>
-        if h ≠ m.handles.length then fin m (some "getconn: unexpected handle number") else
-        if m.closeCalled then fin m (some "close: GetConnByUfrag succeeded after Close") else
-        let v6 := v6 == "1"
-        match findOpen m.pcs u v6 lip with
-        | some p =>
-          fin { m with pcs := setAt m.pcs p (fun pc => { pc with expires := none, refs := pc.refs + 1 }),
-                       handles := m.handles ++ [{ pc := p }] } none
-        | none =>
-          fin { m with pcs := m.pcs ++ [{ ufrag := u, v6 := v6, lip := lip, provisional := false, expires := none, refs := 1 }],
-                       handles := m.handles ++ [{ pc := m.pcs.length }] } none
-      | _, _, _ => fin m none
-    | ["remove", u] =>
-      match parseU u with
-      | some u => fin { m with pcs := closeWhere m.pcs (fun pc => pc.ufrag == u) } none
-      | none => fin m none
-    | ["closeh", h] =>
-      match (parseH h).bind (fun h => (m.handles[h]?).map (h, ·)) with
-      | some (h, hd) =>
-        if hd.closed then fin m none else
-        let m1 := { m with handles := setAt m.handles h (fun hd => { hd with closed := true }) }
-        match m1.pcs[hd.pc]? with
-        | some pc =>
-          let m2 := { m1 with pcs := setAt m1.pcs hd.pc (fun pc => { pc with refs := pc.refs - 1 }) }
-          if pc.refs ≤ 1 then fin { m2 with pcs := closeRec m2.pcs hd.pc } none else fin m2 none
-        | none => fin m1 none
-      | none => fin m none
-    | ["closepc", h] =>
-      match (parseH h).bind (fun h => m.handles[h]?) with
-      | some hd => fin { m with pcs := closeRec m.pcs hd.pc } none
-      | none => fin m none
-    | ["write", h, ip, port, pid, len] =>
-      match (parseH h).bind (fun h => m.handles[h]?), ip.toNat?, port.toNat?, len.toNat? with
-      | some hd, some ip, some port, some len =>
-        let want := if len < 4 then "-" else pid
-        let tgt := if hd.closed then [] else (liveOn m hd.pc).filter (fun (_, c) => c.ip == ip && c.port == port)
-        if o.res.startsWith "n=" then
-          match tgt, o.outs with
-          | [(k, _)], [(k', id)] =>
-            if k ≠ k' then fin m (some "reply path: the reply went out on another TCP connection") true
-            else if id ≠ want then fin m (some "reply path: the reply's payload is not what was written") true
-            else if o.res ≠ s!"n={len}" then fin m (some "reply path: wrong byte count") true
-            else fin m none true
-          | [], _ => fin m (some "reply path: write succeeded although no open TCP connection with that address is routed to this packet connection") true
-          | _, _ => fin m (some "reply path: a successful write must appear on exactly one TCP connection") true
-        else
-          if !o.outs.isEmpty then fin m (some "reply path: a failed write reached a client") true
-          else if !tgt.isEmpty then fin m (some "reply path: write failed although the TCP connection with that address is open and routed to this packet connection") true
-          else fin m none true
-      | _, _, _, _ => fin m none
-    | ["read", h] =>
-      match (parseH h).bind (fun h => m.handles[h]?) with
-      | none => fin m none
-      | some hd =>
-        match o.res.splitOn " " with
-        | ["pkt", addr, id, len] =>
-          if hd.closed then fin m (some "order and source: a closed handle returned a packet") else
-          match addr.splitOn ":", len.toNat? with
-          | [ip, port], some len =>
-            -- a connection routed to this packet connection, with that address, whose NEXT unread frame is
-            -- this one (open connections are tried first: frames of a closed one may legitimately be lost)
-            let all := ((List.range m.clients.length).filterMap (fun k => (m.clients[k]?).map (k, ·))).filter
-              (fun (_, c) => c.target == some hd.pc && toString c.ip == ip && toString c.port == port)
-            let isNext (c : MClient) : Bool := match c.sent[c.nread]? with
-              | some f => f.len == len && (len < 4 || toString f.fid == id)
-              | none => false
-            let cands := (all.filter (fun (_, c) => !c.closed && isNext c)) ++ (all.filter (fun (_, c) => c.closed && isNext c))
-            match cands with
-            | (k, _) :: _ => fin { m with clients := setAt m.clients k (fun c => { c with nread := c.nread + 1 }) } none
-            | [] =>
-              if all.isEmpty then fin m (some "order and source: packet from an address that no TCP connection routed to this packet connection has")
-              else fin m (some "order and source: not the next frame of a connection routed here from that address (out of order, duplicated, altered or lost)")
-          | _, _ => fin m (some "order and source: unparsable source address")
-        | ["empty"] =>
-          if hd.closed then fin m none else
-          -- nothing to read: every frame of every open connection routed here has been delivered
-          if (liveOn m hd.pc).any (fun (_, c) => c.nread < c.sent.length) && isOpenPc m hd.pc then
-            fin m (some "order and source: nothing to read although an open TCP connection routed here has undelivered frames")
-          else fin m none
-        | _ => fin m none
-    | ["closemux"] =>
-      if m.closeCalled then fin m none else
-      let m := { m with closeCalled := true, closeTime := m.now, pcs := closeWhere m.pcs (fun _ => true) }
-      -- Close closes every packet connection, hence every routed TCP connection, before it waits
-      if (List.range m.clients.length).any (fun k => match m.clients[k]? with
-          | some c => c.target.isSome && !o.closed.contains k | none => false) then
-        fin m (some "close: Close was called but a routed TCP connection is still open")
-      else fin m none
-    | ["end"] =>
-      -- teardown performed by the harness: all handles closed, Close called, time advanced past both timeouts
-      let m := { m with closeTime := if m.closeCalled then m.closeTime else m.now, closeCalled := true,
-                        now := m.now + m.t1 + m.t2 + 1, pcs := closeWhere m.pcs (fun _ => true) }
-      let v := if !o.res.startsWith "end ok" then some "close: after Close and both timeouts something is still alive" else always m (expire m) o false
-      ({ m with active := false }, v)
-    | _ => fin m none
+    match t1.toNat?, t2.toNat? with
+    | some t1, some t2 => .start t1 t2
+    | _, _ => .reset
+  | ["multi", _, _] => .reset
+  | ["accept", _k, ip, port, lip] =>
+    match ip.toNat?, port.toNat?, lip.toNat? with
+    | some ip, some port, some lip => .accept ip port lip
+    | _, _, _ => .other
+  | ["frame", k, fid, kind, len] =>
+    match k.toNat?, fid.toNat?, len.toNat? with
+    | some k, some fid, some len => .frame k fid (kindUser kind) len
+    | _, _, _ => .other
+  | ["partial", k, _, _, _, _] =>
+    match k.toNat? with
+    | some k => .partialFrame k
+    | none => .other
+  | ["cclose", k] | ["creset", k] =>
+    match k.toNat? with
+    | some k => .cclose k
+    | none => .other
+  | ["advance", dt] =>
+    match dt.toNat? with
+    | some dt => .advance dt
+    | none => .other
+  | ["getconn", u, v6, lip] =>
+    match parseU u, lip.toNat? with
+    | some u, some lip => .getconn u (v6 == "1") lip
+    | _, _ => .other
+  | ["remove", u] =>
+    match parseU u with
+    | some u => .remove u
+    | none => .other
+  | ["closeh", h] =>
+    match parseH h with
+    | some h => .closeh h
+    | none => .other
+  | ["closepc", h] =>
+    match parseH h with
+    | some h => .closepc h
+    | none => .other
+  | ["write", h, ip, port, pid, len] =>
+    match parseH h, ip.toNat?, port.toNat?, len.toNat? with
+    | some h, some ip, some port, some len => .write h ip port pid len
+    | _, _, _, _ => .other
+  | ["read", h] =>
+    match parseH h with
+    | some h => .read h
+    | none => .other
+  | ["closemux"] => .closemux
+  | ["end"] => .finish
+  | _ => .other
+
+/-- One step of the monitor on the line protocol: operation tokens (without the component name) and
+the implementation's output line. -/
+def observe (m : Mon) (toks : List String) (impl : String) : Mon × Option String :=
+  observeT m (parseToks toks) (parseLine impl)
 
 end IceSpec.C15
